@@ -199,6 +199,22 @@ def u_scalar(W, sk):
     out = W.call(lambda: x + "1")
     SL.check_raises(W, "x+str", out, AssertionError)
     SL.check_unchanged(W, "scalar_and_unary", snaps)
+    # history: in-place abs / sign on another array, then the out-of-place forms again (nothing may be carried over)
+    z = W.array("z", [D[l] for l in sk["x"]])
+    Z0 = SL.lab_of_values(W, z.values.copy(), [D[l] for l in sk["x"]])
+    zd = z.dims
+    out = W.call(lambda: z.abs(inplace=True))
+    W.prove("z.abs(inplace).returns_none", out.kind == "return" and out.value is None, detail=repr(out))
+    W.prove("z.abs(inplace).frame.dims_object", z.dims is zd, kind="frame")
+    if SL.check_wf(W, "z.abs(inplace).target", z):
+        Z = SL.lab(W, z)
+        W.forall("z.abs(inplace).entries", Z.sizes(), lambda idx: W.num_eq(Z.at(dict(zip(Z.letters, idx))), sabs(Z0.at(dict(zip(Z.letters, idx))))))
+    zsn = SL.snapshot(W, [z, x])
+    for name, thunk, f in (("x.abs() after an in-place call", lambda: x.abs(), sabs), ("x.sign() after an in-place call", lambda: x.sign(), ssign)):
+        out = W.call(thunk)
+        exp = SL.Lab(W, X.letters, X.dims, (lambda f: lambda asg: f(X.at(asg)))(f))
+        SL.check_same_array(W, name, out, exp, fresh_from=[x, z], own_dims_from=[x, z])
+    SL.check_unchanged(W, "after_inplace", zsn)
 
 
 @unit(
@@ -953,6 +969,11 @@ def callee_contract_stubs(W):
         def __new__(cls, dims=None, values=None, name="unnamed"):
             used.append("FlodymArray()")
             dl = list(dims.dim_list)
+            if isinstance(values, Number) and not isinstance(values, symnp.SymArr):
+                # contract of the constructor: a number is accepted for a zero-dimensional array and stored as an array
+                if dl:
+                    raise ValueError("Values must be a numpy array, except for 0-dimensional arrays.")
+                values = symnp.as_symarr(values)
             shp = values.shape
             ok = len(shp) == len(dl) and all(bool(W.size_eq(a, W.size_of(d))) for a, d in zip(shp, dl))
             if not ok:
